@@ -56,9 +56,11 @@ CompPlain == <<H("<li>"), P(Var("name")), H("</li>")>>
 CompDef == <<H("<d>"), Slot("", 1), H("</d>")>>
 CompNamed == <<If(<<Br(Var("big"), <<H("BIG")>>)>>, <<H("sm")>>, 1), Slot("head", 1), H("|"), P(Var("n")), H("|"), Slot("foot", 1)>>
 CompBoth == <<H("{"), Slot("", 1), H("/"), Slot("x", 1), H("/"), P(Var("n")), H("}")>>
-Comps07 == [n \in {"components/plain", "components/def", "components/named", "components/both", "card"} |->
+CompTwo == <<P(Var("a")), H("-"), P(Var("b")), H("-"), P(Var("c"))>>
+Comps07 == [n \in {"components/plain", "components/def", "components/named", "components/both", "components/two", "card"} |->
               CASE n = "components/plain" -> Tpl(NoUse, CompPlain) [] n = "components/def" -> Tpl(NoUse, CompDef)
                 [] n = "components/named" -> Tpl(NoUse, CompNamed) [] n = "components/both" -> Tpl(NoUse, CompBoth)
+                [] n = "components/two" -> Tpl(NoUse, CompTwo)
                 [] n = "card" -> Tpl(NoUse, <<H("card:"), P(Var("name"))>>)]
 Uses == {Comp(Alias("plain"), <<Arg("name", StrL("Ann"))>>, <<>>, 1), Comp(Alias("plain"), <<Arg("name", Var("who"))>>, <<>>, 1),
          Comp(Ref("components/plain"), <<Arg("name", Bin("+", Var("who"), StrL("!")))>>, <<>>, 1),
@@ -79,7 +81,12 @@ Pages07 == {<<H("A:"), u1, H(" B:"), u2>> : u1 \in Uses, u2 \in Uses}
       \cup {<<Each("x", Var("xs"), <<Comp(Alias("def"), <<>>, <<Sl("", <<P(Var("x")), P(Dot(Var("loop"), "index"))>>)>>, 1)>>, NoElse, 1)>>}
       \cup {<<If(<<Br(Var("yes"), <<u>>)>>, <<H("no")>>, 1), If(<<Br(IntL(0), <<H("no")>>)>>, <<u>>, 1)>> : u \in Uses}
       \cup {<<Assign("name", StrL("outer"), 1), u, H("="), P(Var("name"))>> : u \in Uses}
-Good07 == {[tree |-> Tree07(pb), page |-> "home", d |-> Data07, tags |-> <<"c07", "page">>] : pb \in Pages07}
+\* every argument is evaluated at the place of use: an argument never sees its sibling arguments, whatever their order
+TwoUses == {Comp(Alias("two"), <<Arg(k1, StrL("A")), Arg(k2, Bin("+", Var(k1), StrL("!"))), Arg(k3, Var(k2))>>, <<>>, 1) :
+              k1 \in {"a", "b", "c"}, k2 \in {"a", "b", "c"}, k3 \in {"a", "b", "c"}}
+Shadow07 == {<<Assign("a", StrL("oa"), 1), Assign("b", StrL("ob"), 1), Assign("c", StrL("oc"), 1), H("<"), u, H(">"), P(Var("a")), P(Var("b")), P(Var("c"))>> :
+               u \in {x \in TwoUses : Cardinality({x.args[1].key, x.args[2].key, x.args[3].key}) = 3}}
+Good07 == {[tree |-> Tree07(pb), page |-> "home", d |-> Data07, tags |-> <<"c07", "page">>] : pb \in Pages07 \cup Shadow07}
 \* a component inside an insert of a page that uses a layout
 InLayout07 == {[tree |-> [n \in DOMAIN Comps07 \cup {"home", "layouts/main"} |->
                             CASE n = "home" -> Tpl(Alias("main"), <<InsertB("content", <<H("c:"), u>>, 1), InsertE("title", StrL("t"), 1)>>)
